@@ -36,6 +36,16 @@ structure St where
       it removes only the entries it saw before the database call — an id that was sent again in the
       meantime has a fresh entry, which stays -/
   guarded : Bool := true
+  /-- ids that are acknowledged or expired in the database through something else than this stream's
+      own reader (an Acknowledge call made outside it, the end of the retention) -/
+  done : List Nat := []
+  /-- a notification for the refresh goroutine is outstanding (every acknowledgement notifies the
+      subscription's listeners; the refresher renews its awaiter before it looks at the database) -/
+  dirty : Bool := false
+  /-- shape of the sender (from the source, `Extracted.streamerBooksBeforeSend`): the fetched deliveries
+      are entered into `pending` before they are sent; when false they wait in `unbooked` until `lateBook` -/
+  bookFirst : Bool := true
+  unbooked : List (Nat × Nat) := []
 deriving Repr, Inhabited
 
 def bytesOf : List (Nat × Nat) → Int
@@ -75,8 +85,11 @@ inductive Ev where
   | settleBook
   /-- Acknowledge / expiry outside the stream -/
   | extSettle (ids : List Nat)
-  /-- the refresh goroutine found these pending ids settled in the database -/
-  | refresh (gone : List Nat)
+  /-- the refresh goroutine looks up every pending id in the database and drops the ones that are
+      completed or expired there -/
+  | refresh
+  /-- (only for a sender that sends first) the sent deliveries are entered into `pending` -/
+  | lateBook
 deriving Repr
 
 def maxFc (a b : Fc) : Fc := ⟨if a.msgs ≤ b.msgs then b.msgs else a.msgs, if a.bytes ≤ b.bytes then b.bytes else a.bytes⟩
@@ -100,7 +113,9 @@ def step (s : St) : Ev → St
     | none => s
     | some (m, b, strict) =>
       let sel := select strict b (cands.take m) 0 0
-      { s with pending := insertAll s.pending sel, out := s.out.filter (fun i => !(sel.map (·.1)).contains i) ++ sel.map (·.1),
+      { s with pending := if s.bookFirst then insertAll s.pending sel else s.pending,
+               unbooked := if s.bookFirst then s.unbooked else s.unbooked ++ sel,
+               out := s.out.filter (fun i => !(sel.map (·.1)).contains i) ++ sel.map (·.1),
                budget := none,
                releasing := if s.guarded then s.releasing.filter (fun i => !(sel.map (·.1)).contains i) else s.releasing }
   | .fetchEmpty => { s with budget := none }
@@ -109,15 +124,17 @@ def step (s : St) : Ev → St
     { s with out := s.out.filter (fun i => !ids.contains i),
              releasing := s.releasing ++ ids.filter (fun i => (s.pending.map (·.1)).contains i) }
   | .settleBook => { s with pending := removeIds s.pending s.releasing, releasing := [], token := true }
-  | .extSettle ids => { s with out := s.out.filter (fun i => !ids.contains i) }
-  | .refresh gone =>
-    -- only ids that are really settled are removed
-    let g := gone.filter (fun i => !s.out.contains i)
-    { s with pending := removeIds s.pending g, token := s.token || (s.pending.any (fun x => g.contains x.1)) }
+  | .extSettle ids => { s with out := s.out.filter (fun i => !ids.contains i), done := s.done ++ ids, dirty := true }
+  | .refresh =>
+    -- what is settled in the database (and not sent again since) is removed
+    let g := s.done.filter (fun i => !s.out.contains i)
+    { s with pending := removeIds s.pending g, token := s.token || (s.pending.any (fun x => g.contains x.1)), dirty := false }
+  | .lateBook => { s with pending := insertAll s.pending s.unbooked, unbooked := [] }
 
 /-- the initial state, with the shape of the reader's map update read off the source -/
 def St.ofSource : St :=
-  { guarded := Extracted.streamerReaderReleases.all (· == "guarded") && !Extracted.streamerReaderReleases.isEmpty }
+  { guarded := Extracted.streamerReaderReleases.all (· == "guarded") && !Extracted.streamerReaderReleases.isEmpty,
+    bookFirst := Extracted.streamerBooksBeforeSend.all (· == "book-first") && !Extracted.streamerBooksBeforeSend.isEmpty }
 
 def run (s : St) : List Ev → St
   | [] => s
